@@ -310,6 +310,11 @@ func init() {
 		if err == nil {
 			fails = append(fails, identityFails("Destination", w[:len(w)-len(rem)], &d)...)
 			fails = append(fails, methodFails("C04", "Destination", &d)...)
+			// … and still after every argument-free method ran once (a query that disturbs the receiver)
+			for _, f := range identityFails("Destination", w[:len(w)-len(rem)], &d) {
+				f.Sig += ":after-queries"
+				fails = append(fails, f)
+			}
 		} else {
 			fails = append(fails, methodFails("C20", "Destination", &d)...)
 		}
@@ -349,14 +354,22 @@ func init() {
 		if err == nil {
 			fails = append(fails, methodFails("C04", "RouterIdentity", r)...)
 			// C07 on a RouterIdentity: Equal ⇔ same bytes; AsDestination keeps bytes and satisfies the destination policy
-			b, _ := r.Bytes()
-			if !bytes.Equal(b, w[:len(w)-len(rem)]) {
-				// C01 already reports this
-			}
+			// (every argument-free method, AsDestination included, has already run once above: the comparisons
+			// below are against the consumed wire bytes, so a method that disturbs the receiver is seen too)
+			raw := w[:len(w)-len(rem)]
 			ad := r.AsDestination()
 			ab, aerr := ad.Bytes()
-			if aerr != nil || !bytes.Equal(ab, b) {
-				fails = append(fails, fail("C07", "rid-as-destination", "AsDestination changes the serialisation"))
+			if aerr != nil || !bytes.Equal(ab, raw) {
+				fails = append(fails, fail("C07", "rid-as-destination", "AsDestination().Bytes() differs from the identity's wire bytes"))
+			}
+			if destAllowedSpec(ad.KeyCertificate.SigningPublicKeyType(), ad.KeyCertificate.PublicKeyType()) {
+				fails = append(fails, identityFails("RouterIdentity.AsDestination", raw, &ad)...)
+			}
+			if b, berr := r.Bytes(); berr != nil || !bytes.Equal(b, raw) {
+				fails = append(fails, fail("C07", "rid-bytes-after-queries", "RouterIdentity.Bytes() no longer equals its wire bytes after the argument-free queries (AsDestination, …) ran"))
+			}
+			if fresh, _, ferr := router_identity.ReadRouterIdentity(raw); ferr != nil || !r.Equal(fresh) {
+				fails = append(fails, fail("C07", "rid-equal-after-queries", "RouterIdentity is no longer Equal to a fresh parse of its wire bytes after the argument-free queries ran"))
 			}
 			s, c := ad.KeyCertificate.SigningPublicKeyType(), ad.KeyCertificate.PublicKeyType()
 			if !destAllowedSpec(s, c) {
